@@ -17,19 +17,22 @@ import (
 func TestC33(t *testing.T) {
 	r := kit.Start(t, "C33", "exploration")
 	defer r.Finish()
-	r.Rule("(a) eight directed second-round scenarios and five RETURNING scenarios (the same validator key incl. a genesis validator / chain id / relayer / state validator goes through request-approval-removal twice, then a round of the second request without a fresh one) (side-chain register/update/quit, relayer register/remove, NEO3 state-validator register/remove, " +
+	r.Rule("(a) eight directed second-round scenarios and five RETURNING scenarios (the same validator key incl. a genesis validator / chain id / relayer / state validator goes through request-approval-removal twice, then a round of the second request without a fresh one) and four OVERLAPPING scenarios (two pending register / remove requests naming the same relayer or state validator: both approved, the subject removed / re-admitted by a regular request, then rounds of the old requests) (side-chain register/update/quit, relayer register/remove, NEO3 state-validator register/remove, " +
 		"validator candidacy), each repeated over pool sizes 4..maxN with random approval orders and noise, each followed by random operations; " +
 		"(b) random histories in which 35% of approval targets are requests that were already applied. Distinct = as in C32 (method, counts, pending/consumed state, caller class, verdict, effect)")
 	cfg := govmodel.Config{Property: "C33", Histories: r.N(150, 8000), Ops: r.N(80, 110), MinN: 4, MaxN: r.N(10, 25),
 		Wt:      govmodel.Weights{Node: 2, SideChain: 3, Relayer: 2, Neo3: 2, SecondRound: 35},
-		Scripts: append(govmodel.SecondRoundScripts(), govmodel.ReturningScripts()...), ScriptReps: r.N(7, 132), RealSig: true}
+		Scripts: append(append(govmodel.SecondRoundScripts(), govmodel.ReturningScripts()...), govmodel.OverlappingScripts()...), ScriptReps: r.N(7, 132), RealSig: true}
 	govmodel.Run(r, cfg)
 	r.Require("approvals_of_applied_requests", r.N(1000, 10000))
-	r.Require("scripted_histories", 13*r.N(7, 132))
+	r.Require("scripted_histories", 17*r.N(7, 132))
 	for _, k := range []string{govmodel.KApproveCandidate, govmodel.KApproveRegisterSC, govmodel.KApproveUpdateSC, govmodel.KApproveQuitSC,
 		govmodel.KApproveRegRelayer, govmodel.KApproveRemRelayer, govmodel.KApproveRegSV, govmodel.KApproveRemSV} {
 		r.Require("effect@"+k, r.N(7, 60))
 	}
+	r.Require("approvals_of_overlapping_requests_applied_earlier", r.N(100, 1500))
+	r.Require("approvals_of_requests_whose_action_changes_nothing", r.N(50, 800))
+	r.Require("approve_must_unobservable", r.N(25, 400))
 	r.Require("approvals_in_returning_rounds", r.N(100, 1500))
 	r.Assume("a request is identified by (approval method, id); 'applied' = the reference model saw its action take effect (or, when the action changed nothing visible, " +
 		"every reading of C32 demanded the effect); a re-application that changes nothing visible is not judged")
